@@ -6,7 +6,7 @@ from collections import Counter
 from . import lrugen
 from .engine import short, Violation
 from .fsck import Fsck
-from .model import stems, stem_prefixes, blocks_for_stem
+from .model import stems, stem_prefixes, blocks_for_stem, variations
 
 
 def traph_exc():
@@ -129,6 +129,21 @@ def sweep_C02(ctx):
         sub = guarded(ctx, "C02.subtree_traversal", lambda: [lru for node, lru in trie.dfs_iter(start, p)])[1]
         exp = sorted(q for q in m.nodes if q.startswith(p))
         ctx.check("C02.subtree_traversal", sorted(sub) == exp, lambda: "traversal started at %s yields %s, stored below it: %s" % (short(p), short(sorted(sub)), short(exp)))
+    # link ends are stored as block addresses and handed back through bottom-up reconstruction:
+    # whatever a link query names must be a stored LRU, byte for byte, that top-down lookup finds
+    if m.links:
+        ends = set()
+        for a_, b_ in guarded(ctx, "C02.link_end_reconstruction", lambda: list(t.links_iter(out=ctx.obs_rng.random() < 0.5)))[1]:
+            ends.add(a_)
+            ends.add(b_)
+        for p in sample(ctx, {x for pair in m.links for x in pair}, 3):
+            for a_, b_, _w in guarded(ctx, "C02.link_end_reconstruction", t.get_page_links, p)[1]:
+                ends.add(a_)
+                ends.add(b_)
+        bad = sorted(e_ for e_ in ends if e_ not in m.nodes)
+        ctx.check("C02.link_end_reconstruction", not bad, lambda: "link queries name %s, which no request ever named" % short(bad))
+        for e_ in sample(ctx, ends, 6):
+            ctx.check("C02.link_end_reconstruction", trie.lru_node(e_) is not None, lambda: "link end %s (bottom-up) cannot be located top-down" % short(e_))
     for x in absent_lrus(ctx, 10):
         node = guarded(ctx, "C02.absent_lookup", trie.lru_node, x)[1]
         ctx.check("C02.absent_lookup", node is None, lambda: "absent LRU %s is located" % short(x))
@@ -319,6 +334,16 @@ def sweep_C06(ctx):
             ctx.check("C06.potential_readonly", len(ctx.disk.log) == mark, lambda: "get_potential_prefix(%s) wrote to the store" % short(q))
         if exp and exp not in m.pref:
             ctx.probe("potential_is_rule_proposal")
+            # the caller asks for the variations of what would be created and goes on working with
+            # the list it was handed (edits it in place): its own business, the index must not notice
+            v = guarded(ctx, "C06.expand_prefix", t.expand_prefix, exp)
+            if v[0] == "ok" and isinstance(v[1], list):
+                ctx.check("C06.expand_prefix", sorted(v[1]) == sorted(variations(exp)), lambda: "expand_prefix(%s) = %s" % (short(exp), short(v[1])))
+                if ctx.obs_rng.random() < 0.5:
+                    del v[1][ctx.obs_rng.randrange(len(v[1])) :]
+                else:
+                    v[1].append(b"s:gopher|h:caller|")
+                ctx.probe("caller_edits_returned_list")
     # every page resolves to max(E, K)
     for l in sample(ctx, m.pages, 40):
         e = m.E(l)
